@@ -34,6 +34,10 @@ var propC11 = &pProp{
 				if gp.Has["InitState"] && r.chance(1, 4) {
 					o.InitState = [][2]string{{"k0", "init"}}
 				}
+				if r.chance(1, 3) {
+					// file names that look like format strings, positions or nothing
+					o.Filename = []string{"<empty>", "dir/a b.peg", "report_100%_done.txt", "my%20file%d.txt", `C:\g:1:2 (3): rule X.peg`, "é.peg"}[r.intn(6)]
+				}
 				if gp.LeftRec {
 					o.Memoize = false // the model (needed to know which errors seed growing keeps) has no memo
 				}
